@@ -34,7 +34,7 @@ def parse_split_specification(split_spec, size):
             rest_index = i
         else:
             raise ValueError("cannot parse specification '%s'" % split_spec)
-        if parts[-1] < 0:
+        if part_spec != 'rest' and int(part_spec[:-1]) < 0:
             raise ValueError("negative part size in specification '%s'"
                              % split_spec)
     # check if it makes sense
